@@ -103,12 +103,13 @@ class World:
             else:
                 continue
             break
-        if str(self.a) != str(self.a_ref):
+        # (compared structurally: the two routes / a re-indenting library may differ in ignorable white space)
+        if xmlcmp.canon(self.a.xml) != xmlcmp.canon(self.a_ref.xml) or self.a.completed != self.a_ref.completed:
             self.fails.append(Failure(PROP, 'C13|running-order-differs-from-fresh-fold',
                                       f'after {what}: the running order that received live objects differs '
                                       'from the one that received freshly parsed copies',
                                       str(self.a_ref), str(self.a)))
-        if str(self.b) != str(self.b_ref):
+        if xmlcmp.canon(self.b.xml) != xmlcmp.canon(self.b_ref.xml) or self.b.completed != self.b_ref.completed:
             kinds = sorted({k for _o, _s, _t, k in self.objs[:self.j]})
             self.fails.append(Failure(PROP, 'C13|reused-object-merge-differs',
                                       f'after {what}: merging re-used objects gives a different running '
